@@ -137,7 +137,7 @@ def spec_dir(ctx, cfgs):
     return d
 
 
-KVS = ["input", "hdr", "payload"]            # how two trigger ids are made different
+KVS = ["input", "hdr", "payload", "ws"]            # how two trigger ids are made different
 FKS = ["num-static", "num-var", "arr-var", "true-var", "false-var", "str-var",   # how an "odd" filter value is written
        "in2-static", "in2-var", "notin2", "str2-var"]                              # ... IN / NOT{IN} with two value templates (the second one matches)
 
